@@ -63,8 +63,35 @@ Qed.
 
 Lemma model_seen_ok r hd : deferral_refused r = false ->
   run_ops r [] (r_ops r) (init_hdr r) 0 = Ok hd ->
-  model_seen r = match r_rule r with RZip317 => None | RLin _ => Some (req_shape r) end.
-Proof. intros D H. unfold model_seen. rewrite D, H. destruct (r_rule r); reflexivity. Qed.
+  model_seen r = if r_coinbase r then None
+                 else match r_rule r with RZip317 => None | RLin _ => Some (req_shape r) end.
+Proof. intros D H. unfold model_seen. rewrite D, H. destruct (r_coinbase r), (r_rule r); reflexivity. Qed.
+
+Lemma fee_required_known ru s fee : fee_required ru s = Some fee ->
+  match ru with RZip317 => has_unknown_size s | RLin _ => false end = false.
+Proof. unfold fee_required. destruct (match ru with RZip317 => _ | RLin _ => false end); [discriminate|reflexivity]. Qed.
+
+Lemma build_err_coinbase r e : build r = Err e ->
+  (e = ECoinbaseExpiry -> r_coinbase r && negb (requested_expiry r =? r_height r) = true) /\
+  (e = ECoinbase -> r_coinbase r && (nonempty (tin_vs (r_ops r)) || (r_height r =? 0)) = true).
+Proof.
+  unfold build. intros H.
+  destruct (deferral_refused r). { inversion H. split; discriminate. }
+  destruct (run_ops r [] (r_ops r) (init_hdr r) 0) as [hd|e0|] eqn:R; [| |discriminate].
+  2:{ inversion H. subst e0. apply run_ops_err in R. destruct R as (k & o & e' & -> & _). split; discriminate. }
+  destruct (run_ops_hdr _ _ R) as (_ & He & _).
+  destruct (r_coinbase r).
+  - destruct (is_pczt r); [inversion H; split; discriminate|].
+    apply finish_cb_err in H. destruct H as [C|(_ & [[-> Hx]|[[-> Hx]|[->|[->| ->]]]])]; try (split; discriminate).
+    + apply check_version_some in C. destruct C as [[p ->] _]. split; discriminate.
+    + split; [intros _|discriminate]. rewrite <- He. cbn [andb]. apply negb_true_iff. lia.
+    + split; [discriminate|intros _]. cbn [andb]. destruct Hx as [->|Hx]; [reflexivity|].
+      rewrite Hx. cbn. now rewrite orb_true_r.
+  - apply finish_err in H.
+    destruct H as [[-> _]|(fee & Fe & [C|(C & [[-> _]|(bal & V & Hc)])])]; try (split; discriminate).
+    + apply check_version_some in C. destruct C as [[p ->] _]. split; discriminate.
+    + destruct Hc as [[-> _]|[[-> _]|[[-> _]|[[->| ->] _]]]]; split; discriminate.
+Qed.
 
 Lemma build_not_add_ok r e : build r = Err e -> (forall i e', e <> EAdd i e') -> e <> EDeferral ->
   deferral_refused r = false /\ exists hd, run_ops r [] (r_ops r) (init_hdr r) 0 = Ok hd.
@@ -86,16 +113,37 @@ Proof.
   destruct (deferral_refused r) eqn:D.
   { unfold deferral_refused in D. destruct (branch_at (r_net r) (r_height r)); exact D. }
   destruct (run_ops r [] (r_ops r) (init_hdr r) 0) as [hd|e0|] eqn:R; [| |discriminate].
-  - apply finish_err in H.
+  - destruct (r_coinbase r).
+    { destruct (is_pczt r); [discriminate|].
+      apply finish_cb_err in H. destruct H as [C|(_ & [[E _]|[[E _]|[E|[E|E]]]])]; try discriminate.
+      apply check_version_some in C. destruct C as [[q E] _]. discriminate. }
+    apply finish_err in H.
     destruct H as [[E _]|(fee & Fe & [C|(C & [[E _]|(bal & V & Hc)])])]; try discriminate.
     + apply check_version_some in C. destruct C as [[q E] _]. discriminate.
     + destruct Hc as [[E _]|[[E _]|[[E _]|[[E|E] _]]]]; discriminate.
   - inversion H. subst e0. apply run_ops_err in R. destruct R as (k & o & e' & E & _). discriminate.
 Qed.
 
-Theorem bridge : forall c, wf_case c = true -> run_case c = true -> prop_case c = true.
+Lemma built_coinbase r b : r_coinbase r = true -> build r = Ok b ->
+  b_tin b = [] /\ b_fee_paid b = None /\ b_expiry b = r_height r /\
+  ss_vals (r_ops r) = [] /\ os_vals (r_ops r) = [] /\ is_vals (r_ops r) = [].
 Proof.
-  intros [r seen sels o] _ H. unfold run_case in H. apply andb_prop in H. destruct H as [H Hsel].
+  intros CB H. destruct (build_cb_ok_inv _ _ CB H) as (hd & R & _ & He & _ & _ & ->).
+  destruct (no_spend_lists _ (run_ops_cb r CB _ _ _ _ _ R)) as (Z1 & Z2 & Z3).
+  unfold assemble_cb. cbn [b_tin b_fee_paid b_expiry]. repeat split; auto.
+Qed.
+
+Lemma tin_nil_coins ops : tin_vs ops = [] -> forall pos, coins_from pos ops = [].
+Proof.
+  unfold tin_vs. induction ops as [|o ops IH]; intros H pos; [reflexivity|].
+  cbn [flat_map] in H. apply app_eq_nil in H. destruct H as [H1 H2].
+  destruct o; cbn in *; try discriminate; auto.
+Qed.
+
+Theorem bridge : forall c,
+  wf_case c = true -> known_class c = 0%N -> run_case c = true -> prop_case c = true.
+Proof.
+  intros [r seen sels o] _ KC H. unfold run_case in H. apply andb_prop in H. destruct H as [H Hsel].
   apply andb_prop in H. destruct H as [H Hs].
   apply (option_eqb_spec shape_eqb shape_eqb_eq) in Hs.
   apply (list_eqb_spec _ (list_eqb_spec sel_eqb sel_eqb_eq)) in Hsel.
@@ -103,43 +151,66 @@ Proof.
   destruct (build r) as [m|em|] eqn:B; destruct o as [b|e|]; cbn [outcome_eqb] in H; try discriminate.
   - apply built_eqb_eq in H. subst m.
     pose proof (built_contents _ _ B) as Hc.
-    destruct (built_fee _ _ B) as (F1 & F2 & _ & F4).
     pose proof (built_version _ _ B) as Hv.
     destruct (built_header _ _ B) as (G1 & G2 & G3 & G4 & G5 & G6).
-    destruct (build_ok_inv _ _ B) as (hd & fee & R & _).
     pose proof (build_ok_not_refused _ _ B) as DR.
-    rewrite Hc, Hv, G5, G6. cbn [andb].
-    assert (Fo : fee_okb (r_rule r) b = true).
-    { unfold fee_okb. rewrite F4, F2. apply andb_true_intro. split; [apply Z.eqb_eq; exact F1|].
-      destruct (is_pczt r); cbn [andb]; auto using Z.eqb_refl. }
+    assert (G6' : b_sig b = true).
+    { rewrite G6. cbn [known_class] in KC. destruct (malformed_script_sig r); [discriminate|reflexivity]. }
+    rewrite Hc, Hv, G5, G6'. cbn [andb].
     assert (Ho : header_okb r b = true).
     { unfold header_okb. rewrite G1, G2, G3, G4, ver_eqb_refl, !Z.eqb_refl. reflexivity. }
-    assert (So : sels_okb r b sels = true).
-    { subst sels. unfold sels_okb, expected_sels. destruct (is_pczt r) eqn:Pz; [reflexivity|].
-      rewrite G1. destruct (build_ok_inv _ _ B) as (hd' & fee' & R' & _ & _ & _ & _ & RT).
-      unfold route_ok in RT. unfold is_pczt in Pz.
-      destruct (run_ops_hdr _ _ R') as (Hv' & _ & _). rewrite <- Hv'.
-      apply model_sels_ok. destruct (r_route r); try discriminate; tauto. }
-    rewrite Fo, Ho, So. cbn [andb]. rewrite <- Hs, (model_seen_ok _ _ DR R), F2.
-    destruct (r_rule r); [reflexivity|apply shape_eqb_refl].
+    rewrite Ho. cbn [andb].
+    destruct (r_coinbase r) eqn:CB.
+    + destruct (build_cb_ok_inv _ _ CB B) as (hd & R & _ & _ & TI & _ & Eb).
+      assert (So : sels_okb r b sels = true).
+      { subst sels. unfold sels_okb, expected_sels. destruct (is_pczt r); [reflexivity|].
+        unfold model_sels, coins_of. rewrite (tin_nil_coins _ TI). reflexivity. }
+      rewrite So. cbn [andb]. rewrite <- Hs, (model_seen_ok _ _ DR R), CB.
+      destruct (built_coinbase _ _ CB B) as (T1 & T2 & T3 & _). rewrite T1, T2, T3, Z.eqb_refl. reflexivity.
+    + destruct (built_fee _ _ CB B) as (F1 & F2 & _ & F4).
+      destruct (build_ok_inv _ _ CB B) as (hd & fee & R & Fe & _ & _ & _ & RT).
+      assert (Fo : fee_okb (r_rule r) b = true).
+      { unfold fee_okb. rewrite F4, F2, (fee_required_known _ _ _ Fe). cbn [negb andb].
+        apply andb_true_intro. split; [apply Z.eqb_eq; exact F1|].
+        destruct (is_pczt r); cbn [andb]; auto using Z.eqb_refl. }
+      assert (So : sels_okb r b sels = true).
+      { subst sels. unfold sels_okb, expected_sels. destruct (is_pczt r) eqn:Pz; [reflexivity|].
+        rewrite G1. unfold route_ok in RT. unfold is_pczt in Pz.
+        destruct (run_ops_hdr _ _ R) as (Hv' & _ & _). rewrite <- Hv'.
+        apply model_sels_ok. destruct (r_route r); try discriminate; tauto. }
+      rewrite Fo, So. cbn [andb]. rewrite <- Hs, (model_seen_ok _ _ DR R), CB, F2.
+      destruct (r_rule r); [reflexivity|apply shape_eqb_refl].
   - apply berr_eqb_eq in H. subst em.
     destruct (build_err_amount _ _ B) as [A1 A2].
+    destruct (build_err_coinbase _ _ B) as [K1 K2].
     destruct e; try reflexivity.
     + destruct (A1 a eq_refl) as [P1 P2].
       destruct (build_not_add_ok _ _ B ltac:(discriminate) ltac:(discriminate)) as [DR [hd R]].
       rewrite <- Hs, (model_seen_ok _ _ DR R).
       replace (0 <? a) with true by lia. replace (requested_balance (r_ops r) + a =? _) with true by lia.
-      cbn [andb]. destruct (r_rule r); [reflexivity|apply shape_eqb_refl].
+      cbn [andb]. destruct (r_coinbase r); [reflexivity|]. destruct (r_rule r); [reflexivity|apply shape_eqb_refl].
     + destruct (A2 a eq_refl) as [P1 P2].
       destruct (build_not_add_ok _ _ B ltac:(discriminate) ltac:(discriminate)) as [DR [hd R]].
       rewrite <- Hs, (model_seen_ok _ _ DR R).
       replace (0 <? a) with true by lia. replace (requested_balance (r_ops r) - a =? _) with true by lia.
-      cbn [andb]. destruct (r_rule r); [reflexivity|apply shape_eqb_refl].
+      cbn [andb]. destruct (r_coinbase r); [reflexivity|]. destruct (r_rule r); [reflexivity|apply shape_eqb_refl].
     + destruct (build_err_target _ _ _ B) as [T1 T2]. rewrite T2. subst v. now rewrite ver_eqb_refl.
     + now apply build_err_deferral.
+    + now apply K2.
+    + now apply K1.
     + destruct e; try reflexivity.
       destruct (build_err_add_target _ _ _ _ B) as [T1 T2]. rewrite T2.
       unfold is_propose. unfold is_true in T1.
       destruct (nth_error (r_ops r) (Z.to_nat i)) as [[]|]; try discriminate. now rewrite T1.
   - now apply build_panic.
 Qed.
+
+
+(** the known finding as a witness *)
+Definition refuting_req : req :=
+  mkReq Main 2726506 false false false (mkPad false None) (mkPad false None) [4; 5; 6; 7; 8]
+        [TInSh 40000 3 5; TOut 25000 true] RZip317 Build false.
+Lemma script_sig_refuted : exists r b, build r = Ok b /\ wf_req r = true /\ b_sig b = false.
+Proof. exists refuting_req. eexists. split; [vm_compute; reflexivity|]. split; vm_compute; reflexivity. Qed.
+
+
